@@ -579,6 +579,9 @@ def can_carry(kind, form, rep):
         return False
 
 
+MARKUP_FORMS = ('utf-8', 'utf-16-le-bom', 'us-ascii-character-references', 'utf-8-crlf')
+
+
 def variants_of(kind, tier):
     """(form, repertoire) pairs of a valid kind: quick = the default repertoire of every form,
     thorough = every repertoire the form can carry."""
@@ -587,6 +590,8 @@ def variants_of(kind, tier):
             yield form, default_rep(kind, form)
         else:
             for rep in REPERTOIRES:
+                if rep == 'markup' and kind in XML_GOOD and form not in MARKUP_FORMS:
+                    continue        # ASCII characters: one form per way of storing them
                 if can_carry(kind, form, rep):
                     yield form, rep
 
@@ -613,7 +618,6 @@ PI_PHP = '<?php echo "<html>"; ?>'
 PI_ROOTNAME = '<?odML version="1.1"?>'
 PI_MODEL = '<?xml-model href="odml.rnc" type="application/relax-ng-compact-syntax"?>'
 XSI = 'xmlns:xsi="http://www.w3.org/2001/XMLSchema-instance"'
-DECL8 = '<?xml version="1.0" encoding="UTF-8"?>\n'
 
 
 def _cm(text):
@@ -767,7 +771,6 @@ XML_SYNTAX = {
     'processing-instruction-inside-character-data:amid-the-text': {
         'text': _t_pi_amid, 'label': 'processing-instruction-inside-character-data'},
 }
-XML_SYNTAX_KEYS = ('decl', 'prolog', 'epilog', 'root', 'endroot', 'tag', 'between', 'text', 'layout')
 _TOKEN = re.compile(r'<[^>]+>|[^<]+')
 
 
@@ -780,7 +783,10 @@ def syntax_parts(syntax):
     parts = {}
     for name in syntax.split('+'):
         for key, val in XML_SYNTAX[name].items():
-            parts.setdefault(key, val)
+            if key != 'label':
+                parts.setdefault(key, val)
+        if 'label' in XML_SYNTAX[name] and parts.get('text') is XML_SYNTAX[name]['text']:
+            parts['label'] = XML_SYNTAX[name]['label']
     return parts
 
 
@@ -846,7 +852,7 @@ def _ydump(data, **kw):
 def _json_escapes(text):
     """Letters and '/' inside the strings of a JSON text as escapes (\\u0041, \\/): the same strings."""
     def lit(m):
-        out, k, s = [], 0, m.group(0)
+        k, s = 0, m.group(0)
         i = 1
         res = ['"']
         while i < len(s) - 1:
@@ -895,7 +901,8 @@ DICT_SYNTAX = {
     'yaml:directive-and-document-markers': ('yaml', lambda d: '%YAML 1.1\n---\n' + _ydump(d, sort_keys=False) + '...\n',
                                             'ascii'),
     'yaml:flow-style': ('yaml', lambda d: _ydump(d, default_flow_style=True, sort_keys=False), 'ascii'),
-    'yaml:json-text': ('yaml', lambda d: json.dumps(d, indent=2), 'latin1'),
+    # (characters beyond the BMP unescaped: a JSON escape pair of surrogates is not one character in YAML)
+    'yaml:json-text': ('yaml', lambda d: json.dumps(d, indent=2, ensure_ascii=False), 'latin1'),
     'yaml:indent-4': ('yaml', lambda d: _ydump(d, indent=4, sort_keys=False), 'ascii'),
     'yaml:keys-sorted': ('yaml', lambda d: _ydump(g._reorder(d, 'sorted'), sort_keys=False), 'ascii'),
     'yaml:keys-reversed': ('yaml', lambda d: _ydump(g._reorder(d, 'reversed'), sort_keys=False), 'ascii'),
@@ -929,7 +936,8 @@ def vlabel(kind, var):
     form, rep = var[:2]
     if len(var) > 2:
         syntax = var[2] if '+' not in var[2] else 'several-markup-features'
-        syntax = XML_SYNTAX.get(syntax, {}).get('label', syntax)
+        if kind in XML_GOOD:
+            syntax = syntax_parts(var[2]).get('label', syntax)
         if form in ('utf-8', 'utf-8-raw'):
             return '%s:%s' % (kind, syntax)
         return '%s:%s:stored-as-%s' % (kind, syntax, form)
@@ -1428,7 +1436,9 @@ def cli_layouts(tier, rnd):
     for k in kinds:
         yield ('single', k), [('', k)]
     # every ordered pair good/bad, bad/good (creation order = order in the list), flat and nested
-    pairs = [(a, b) for a in kinds for b in kinds if (a in GOOD) != (b in GOOD)]
+    # (the look-alike kinds are paired with valid files in syntax_layouts)
+    pairs = [(a, b) for a in kinds for b in kinds if (a in GOOD) != (b in GOOD) and a not in LOOKALIKE
+             and b not in LOOKALIKE]
     if tier == 'quick':
         pairs = [(a, b) for a, b in pairs if (a in CORE_BAD or b in CORE_BAD or a in ('v10-xml', 'v11-xml')
                                               or b in ('v10-xml', 'v11-xml'))]
@@ -1566,6 +1576,7 @@ def syntax_layouts(tier, rnd):
     stored forms (encoding, byte order mark) and character repertoires."""
     quick = tier == 'quick'
     bads = CORE_BAD + XML_LOOKALIKE
+    cross = CORE_BAD + XML_LOOKALIKE[:2]
     # (1) every markup alone / next to a file that has to be skipped
     for i, sx in enumerate(XML_SYNTAX):
         if quick:
@@ -1578,7 +1589,8 @@ def syntax_layouts(tier, rnd):
             var = syntax_var(kind, sx)
             yield ('syntax-single', kind, sx), [('', kind, var)]
             for j, bad in enumerate(bads):
-                if kind.endswith('odml') and j != i % len(bads):
+                # 1.0 .xml files next to the core bad kinds and two look-alike kinds, the others round robin
+                if j != i % len(bads) and (kind != 'v10-xml' or bad not in cross):
                     continue
                 yield ('syntax-pair', kind, sx, bad, 'good-first'), [('', kind, var), ('', bad)]
                 yield ('syntax-pair', kind, sx, bad, 'bad-first'), [('', bad), ('', kind, var)]
@@ -1606,8 +1618,10 @@ def syntax_layouts(tier, rnd):
         yield ('lookalike-single', bad), [('', bad)]
         yield ('lookalike-pair', bad, 'bad-first'), [('', bad), ('', good), ('sub', other)]
         if not quick:
-            yield ('lookalike-pair', bad, 'good-first'), [('', good), ('', bad)]
-            yield ('lookalike-pair', bad, 'other-version'), [('', other), ('sub', bad), ('', bad)]
+            for k in GOOD:
+                if KINDS[k][0] == KINDS[bad][0] or k in ('v10-xml', 'v11-xml'):
+                    yield ('lookalike-pair', bad, k, 'good-first'), [('', k), ('', bad)]
+                    yield ('lookalike-pair', bad, k, 'nested'), [('sub', bad), ('', k), ('sub', k), ('', bad)]
     # (3) every markup in one tree, interleaved with every kind of file that has to be skipped
     every = []
     for i, sx in enumerate(XML_SYNTAX):
@@ -1652,15 +1666,22 @@ def fc_syntax_layouts(tier, target, source_kinds):
     """Directories of valid files in varying markup for the format converter: all of them in one directory (quick,
     RDF targets other than turtle / xml: a third of them, rotating with the target), thorough also one by one."""
     a, b = source_kinds[0], source_kinds[-1]
-    names = list(XML_SYNTAX)
+    # comments / processing instructions inside character data get a directory of their own: the format converter
+    # does not promise to go on after a file it cannot convert, the other files must not depend on these
+    names = [sx for sx in XML_SYNTAX if 'label' not in XML_SYNTAX[sx]]
+    in_text = [sx for sx in XML_SYNTAX if 'label' in XML_SYNTAX[sx]]
     every = [((a, b)[i % 2], syntax_var((a, b)[i % 2], sx)) for i, sx in enumerate(names)]
     if tier == 'quick' and target not in ('v1_1', 'odml', 'turtle', 'xml'):
         k = sorted(RDF_TARGETS).index(target) % 3
         every = every[k::3]
+        in_text = in_text[k::3]
     yield ('syntax-all', 'nested'), [(['', 'sub', 'sub/deep'][i % 3], k, v) for i, (k, v) in enumerate(every)]
+    for i, sx in enumerate(in_text):
+        kind = (a, b)[i % 2]
+        yield ('syntax-in-text', sx), [('', kind, syntax_var(kind, sx))]
     if tier != 'quick':
-        yield ('syntax-all', 'flat'), [('', k, v) for k, v in every]
         if target in ('v1_1', 'odml', 'turtle', 'json-ld'):
+            yield ('syntax-all', 'flat'), [('', k, v) for k, v in every]
             for kind, var in every:
                 yield ('syntax-single', kind, var[2]), [('', kind, var)]
 
@@ -1854,8 +1875,8 @@ def run_batch(tier, seed):
         for n, (key, layout) in enumerate(syntax_layouts(tier, rnd_syntax)):
             for ti, tool in enumerate(CLI_TOOLS):
                 if key[0] == 'syntax-all':
-                    configs = [(True, bool(ti))] if tier == 'quick' else CONFIGS
-                elif tier == 'quick' or key[0] == 'syntax-single':
+                    configs = [(True, bool(ti))] if tier == 'quick' else [(True, bool(ti)), (key[2] == 'flat', not ti)]
+                elif tier == 'quick' or key[0] != 'lookalike-pair':
                     configs = [CONFIGS[(n + ti) % 4]]
                 else:
                     configs = [CONFIGS[(n + ti) % 4], CONFIGS[(n + ti + 3) % 4]]
@@ -1912,7 +1933,8 @@ def run_batch(tier, seed):
             # markup of the valid source files
             for n, (key, layout) in enumerate(fc_syntax_layouts(tier, target, sources)):
                 if key[0] == 'syntax-all':
-                    configs = [(True, bool(len(target) % 2))] if tier == 'quick' else CONFIGS
+                    configs = [(True, bool(len(target) % 2))] if tier == 'quick' else \
+                        [(key[1] == 'nested', False), (True, True)]
                 else:
                     configs = [CONFIGS[n % 4]]
                 for recursive, explicit in configs:
